@@ -465,7 +465,10 @@ class Emit:
         return None
 
     def wb(self, names, borrows):
-        return "".join("let %s := (mapSet %s %s %s);\n    " % (borrows[v][0], borrows[v][0], borrows[v][1], v) for v in names if v in borrows and borrows[v][0] != "__opt__")
+        return "".join("let %s := (%s %s %s %s);\n    " % (borrows[v][0], self.mapfn(2), borrows[v][0], borrows[v][1], v) for v in names if v in borrows and borrows[v][0] != "__opt__")
+
+    def mapfn(self, i):
+        return self.cfg.get("mapfns", ("mapGet", "mapGetD", "mapSet"))[i]
 
     def cps(self, stmts, tail, K, borrows, optb):
         if not stmts:
@@ -479,12 +482,32 @@ class Emit:
                 V, k, unw = gm
                 x = ident(pat[1])
                 if unw:      # a borrow of the entry that lives on: written through after every change
-                    return "let %s := (mapGetD %s %s);\n    %s" % (x, V, k, cont(dict(borrows, **{x: (V, k)})))
+                    return "let %s := (%s %s %s);\n    %s" % (x, self.mapfn(1), V, k, cont(dict(borrows, **{x: (V, k)})))
                 return cont(borrows, dict(optb, **{pat[1]: (V, k)}))          # an optional borrow, matched later
             if e[0] == "mcall" and e[2] in self.cfg.get("effcalls", {}) and pat[0] == "pvar":
                 tmpl, muts = self.cfg["effcalls"][e[2]]
-                args = [self.atom(e[1])] + [self.atom(a) for a in e[3]]
-                return "let (%s) := (%s);\n    %s%s" % (", ".join([ident(pat[1])] + muts), tmpl.format(*args), self.wb(muts, borrows), cont())
+                pre, post, args, muts2 = "", "", [self.atom(e[1])], []
+                for i, a in enumerate(e[3]):
+                    gm = self.getmut(a)
+                    if gm and gm[2]:               # `V.get_mut(&k).unwrap()` passed as `&mut`: read, pass, write back
+                        tmp = "__e%d" % i
+                        pre += "let %s := (%s %s %s);\n    " % (tmp, self.mapfn(1), gm[0], gm[1])
+                        post += "let %s := (%s %s %s %s);\n    " % (gm[0], self.mapfn(2), gm[0], gm[1], tmp)
+                        args.append(tmp)
+                    else:
+                        args.append(self.atom(a))
+                for mname in muts:
+                    muts2.append(args[int(mname[1:])] if mname.startswith("@") else mname)
+                return "%slet (%s) := (%s);\n    %s%s%s" % (pre, ", ".join([ident(pat[1])] + muts2), tmpl.format(*args), post, self.wb(muts2, borrows), cont())
+            if e[0] in ("if", "iflet", "match") and (self.uses_borrow(e, optb) or self.assigned([("expr", e)])):
+                K2 = lambda v: "let %s := %s;\n    %s" % (self.pat(pat), v, cont())
+                def go(blk, b2):
+                    if blk is None:
+                        return self.final(K2, "()", b2)
+                    if blk[0] != "block":
+                        return self.cps_tail(blk, K2, b2, optb)
+                    return self.cps(list(blk[1]), blk[2], K2, b2, optb)
+                return self.cps_branch(e, go, borrows, optb, wrapK=True)
             if e[0] == "mcall" and e[2] == "clone" and self.lhs_name(e[1]) is not None and pat[0] == "pvar":
                 return "let %s := %s;\n    %s" % (ident(pat[1]), self.lhs_name(e[1]), cont())
             return "let %s := %s;\n    %s" % (self.pat(pat), self.e(e), cont())
@@ -492,10 +515,19 @@ class Emit:
         if x[0] == "macro" and x[1] in ("assert", "debug_assert", "assert_eq"):
             return cont()
         if x[0] == "return":
-            return self.cfg["ret"].format(self.e(x[1]))
+            return self.ret(self.e(x[1]))
         if x[0] == "try" and rest and rest[0][0] == "expr" and rest[0][1][0] == "macro" and rest[0][1][1] == "unreachable":
             # `res?; unreachable!()` under `if res.is_err()`: the function returns `res`
-            return self.cfg["ret"].format(self.cfg.get("errcast", "{0}").format(self.e(x[1])))
+            return self.ret(self.cfg.get("errcast", "{0}").format(self.e(x[1])))
+        if x[0] == "for" and self.has_return(x):
+            # a loop that can return: a fold over `Sum (returned value) (mutable places)`; an iteration that follows a return does nothing
+            st = "(" + ", ".join(self.cfg["state"]) + ")"
+            old = self.retwrap
+            self.retwrap = lambda v, o=old: "Sum.inl (" + o(v) + ")"
+            body = self.cps(self.as_stmts(x[3]), None, lambda v: "Sum.inr " + st, borrows, optb)
+            self.retwrap = old
+            return ("let __l := (List.foldl (fun __st %s => match __st with\n    | Sum.inl __r => Sum.inl __r\n    | Sum.inr %s => (%s)) (Sum.inr %s) %s);\n    "
+                    "(match __l with\n    | Sum.inl __r => __r\n    | Sum.inr %s => (%s))") % (self.pat(x[1]), st, body, st, self.atom(x[2]), st, cont())
         if x[0] in ("if", "iflet", "match") and (self.has_return(x) or self.uses_borrow(x, optb)):
             return self.cps_branch(x, lambda blk, b2, K2=None: self.cps(self.as_stmts(blk) + rest if blk is not None else rest, tail, K, b2, optb), borrows, optb, wrapK=False)
         w = self.assigned([s])
@@ -503,6 +535,8 @@ class Emit:
 
     def uses_borrow(self, x, optb):
         sc = x[2] if x[0] == "iflet" else x[1]
+        if sc[0] == "tuple":
+            return any(self.uses_borrow(("match", c, []), optb) for c in sc[1])
         return self.getmut(sc) is not None or (sc[0] == "path" and len(sc[1]) == 1 and sc[1][0] in optb) or self.dotted(sc) in self.cfg.get("optplaces", {}) \
             or (sc[0] == "mcall" and not sc[3] and self.dotted(sc) in self.cfg.get("optplaces", {}))
 
@@ -510,10 +544,10 @@ class Emit:
         """scrutinee text and, when it is a mutable borrow of a map entry / of an optional place, how to write it back"""
         gm = self.getmut(sc)
         if gm:
-            return "(mapGet %s %s)" % (gm[0], gm[1]), ("map", gm[0], gm[1])
+            return "(%s %s %s)" % (self.mapfn(0), gm[0], gm[1]), ("map", gm[0], gm[1])
         if sc[0] == "path" and len(sc[1]) == 1 and sc[1][0] in optb:
             V, k = optb[sc[1][0]]
-            return "(mapGet %s %s)" % (V, k), ("map", V, k)
+            return "(%s %s %s)" % (self.mapfn(0), V, k), ("map", V, k)
         d = self.dotted(sc)
         if d in self.cfg.get("optplaces", {}):
             return self.cfg["optplaces"][d], ("opt", self.cfg["optplaces"][d])
@@ -524,13 +558,26 @@ class Emit:
         if x[0] == "if":
             return "(if %s then (%s) else (%s))" % (self.e(x[1]), go(x[2], borrows), go(x[3], borrows))
         arms = [(x[1], x[3]), (("pwild",), x[4])] if x[0] == "iflet" else list(x[2])
-        sc, back = self.scrut(x[2] if x[0] == "iflet" else x[1], optb)
+        scx = x[2] if x[0] == "iflet" else x[1]
+        if scx[0] == "tuple":
+            parts = [self.scrut(c, optb) for c in scx[1]]
+            sc, backs = "(" + ", ".join(t for t, _ in parts) + ")", [b for _, b in parts]
+        else:
+            sc, back = self.scrut(scx, optb)
+            backs = None
+        def bind(pat, back, b2):
+            if back and pat[0] == "pctor" and pat[1][-1] == "Some" and pat[2] and pat[2][0][0] == "pvar":
+                y = ident(pat[2][0][1])
+                return dict(b2, **{y: (back[1], back[2])}) if back[0] == "map" else dict(b2, **{y: ("__opt__", back[1])})
+            return b2
         out = []
         for pat, blk in arms:
             b2 = borrows
-            if back and pat[0] == "pctor" and pat[1][-1] == "Some" and pat[2] and pat[2][0][0] == "pvar":
-                y = ident(pat[2][0][1])
-                b2 = dict(borrows, **{y: (back[1], back[2])}) if back[0] == "map" else dict(borrows, **{y: ("__opt__", back[1])})
+            if backs is None:
+                b2 = bind(pat, back, b2)
+            elif pat[0] == "ptuple":
+                for sub, bk in zip(pat[1], backs):
+                    b2 = bind(sub, bk, b2)
             out.append("\n    | %s => (%s)" % (self.pat(pat), go(blk, b2)))
         return "(match %s with%s)" % (sc, "".join(out))
 
@@ -548,7 +595,7 @@ class Emit:
                 return self.cps(list(blk[1]), blk[2], K, b2, optb)
             return self.cps_branch(tail, go, borrows, optb, wrapK=True)
         if tail[0] == "return":
-            return self.cfg["ret"].format(self.e(tail[1]))
+            return self.ret(self.e(tail[1]))
         return self.final(K, self.e(tail), borrows)
 
     def final(self, K, v, borrows):
@@ -558,6 +605,11 @@ class Emit:
             if V == "__opt__":
                 pre += "let %s := (some %s);\n    " % (k, y)
         return pre + K("__v")
+
+    retwrap = staticmethod(lambda v: v)
+
+    def ret(self, v):
+        return self.retwrap(self.cfg["ret"].format(v))
 
     def cpsfn(self, body):
         _, stmts, tail = body
@@ -734,6 +786,32 @@ KALMAN_VEC = [
     for fn, fty, args, fargs in [("initiate", "P → R", "points : List P", "{1}"), ("predict", "S → R", "state : List S", "{1}"),
                                  ("update", "S → P → R", "state : List S) (points : List P", "{1} {2}"),
                                  ("distance", "S → P → R", "state : List S) (points : List P", "{1} {2}")]]
+
+TRACK_IMPL = r"impl<TA, M, OA, N> Track<TA, M, OA, N>\s*where[^{]*\{"
+TRACK_OBS = "List (Nat × List (Option A × Option F))"
+TRACK_FIELDS = {"self.attributes": "attributes", "self.observations": "obs_db", "self.metric": "metric", "self.merge_history": "merge_history",
+                "self.notifier": "notes", "self.track_id": "()"}
+TRACK_OPT = "(optimize : M → Nat → List Nat → TA → List (Option A × Option F) → Nat → Bool → Except E Unit × M × TA × List (Option A × Option F))"
+TRACK = [
+    dict(group="Track", name="track_add_observation", file="track.rs", impl=TRACK_IMPL, fn="add_observation", cps=True, imperative=True,
+         sig="{TA M A F U E : Type} (applyU : U → TA → Except E Unit × TA) " + TRACK_OPT + "\n    (attributes : TA) (obs_db : " + TRACK_OBS + ") (metric : M) (merge_history : List Nat) (notes : Nat)\n    (feature_class : Nat) (feature_attributes : Option A) (feature : Option F) (track_attributes_update : Option U) :\n    Except E Unit × TA × " + TRACK_OBS + " × M × Nat",
+         ret="({0}, attributes, obs_db, metric, notes)", fieldpath=TRACK_FIELDS, mapfns=("dbGet", "dbGetD", "dbSet"),
+         effcalls={"update_attributes": ("applyU {1} attributes", ["attributes"]),
+                   "optimize": ("optimize {0} {1} {2} {3} {4} {5} {6}", ["metric", "attributes", "@4"])},
+         method={"is_err": "isErr {0}", "is_none": "Option.isNone {0}", "len": "List.length {0}"},
+         mutmethods={"send": "{0} + 1", "insert": "dbSet {0} {1} {2}"},
+         call={"Observation": "({0}, {1})", "Ok": "Except.ok {0}"}),
+    dict(group="Track", name="track_merge", file="track.rs", impl=TRACK_IMPL, fn="merge", cps=True, imperative=True,
+         sig="{TA M A F E : Type} (mergeA : TA → TA → Except E Unit × TA) " + TRACK_OPT + "\n    (attributes : TA) (obs_db : " + TRACK_OBS + ") (metric : M) (hist : List Nat) (notes : Nat)\n    (other_attributes : TA) (other_obs : " + TRACK_OBS + ") (other_hist : List Nat) (classes : List Nat) (merge_history : Bool) :\n    Except E Unit × TA × " + TRACK_OBS + " × M × List Nat × Nat",
+         ret="({0}, attributes, obs_db, metric, hist, notes)", state=["attributes", "obs_db", "metric", "merged_any"], mapfns=("dbGet", "dbGetD", "dbSet"),
+         fieldpath=dict(TRACK_FIELDS, **{"self.merge_history": "hist", "other.attributes": "other_attributes", "other.observations": "other_obs", "other.merge_history": "other_hist"}),
+         effcalls={"merge": ("mergeA {0} {1}", ["attributes"]),
+                   "optimize": ("optimize {0} {1} {2} {3} {4} {5} {6}", ["metric", "attributes", "@4"])},
+         method={"is_err": "isErr {0}", "len": "List.length {0}", "iter": "{0}", "cloned": "{0}", "collect": "{0}", "clone": "{0}",
+                 "chain": "({0} ++ {1})", "get": "dbGet {0} {1}"},
+         mutmethods={"send": "{0} + 1", "insert": "dbSet {0} {1} {2}", "extend": "{0} ++ {1}"},
+         call={"Ok": "Except.ok {0}", "Some": "some {0}"}),
+]
 # decision kernels over Nat / Rat (no field structure needed)
 GAL_METHOD = {"feature": "featureOf {0}", "attr": "{0}", "as_ref": "{0}", "unwrap": "{0}", "visual_quality": "quality {0}",
                  "partial_cmp": "cmpQ {0} {1}", "len": "List.length {0}", "iter": "{0}", "filter": "List.filter {1} {0}", "count": "List.length {0}"}
@@ -830,7 +908,7 @@ LOGIC = [
 def gen(repo, cfgs, header, footer):
     out, unread = [header], []
     for c in cfgs:
-        if c in LOGIC:
+        if c in LOGIC or c in TRACK:
             c = dict(c, scalar=c.get("scalar", "Rat"))
         path = os.path.join(repo, "src", c["file"])
         try:
@@ -908,6 +986,16 @@ def mapSet {β : Type} : List (Nat × β) → Nat → β → List (Nat × β)
   | [], k, v => [(k, v)]
   | p :: rest, k, v => if p.1 == k then (k, v) :: rest else p :: mapSet rest k v
 """
+PRELUDE_TRACK = """/-- `Result::is_err` -/
+def isErr {ε α : Type} : Except ε α → Bool
+  | .error _ => true
+  | .ok _ => false
+/-- `ObservationsDb` (`HashMap<class, Vec<Observation>>`) as an association list: `get`, `insert` / write-back through `get_mut` -/
+def dbGet {β : Type} (obs : List (Nat × β)) (c : Nat) : Option β := (obs.find? (fun p => p.1 == c)).map (·.2)
+def dbGetD {β : Type} [Inhabited β] (obs : List (Nat × β)) (c : Nat) : β := (dbGet obs c).getD default
+def dbSet {β : Type} (obs : List (Nat × β)) (c : Nat) (v : β) : List (Nat × β) :=
+  if obs.any (fun p => p.1 == c) then obs.map (fun p => if p.1 == c then (c, v) else p) else obs ++ [(c, v)]
+"""
 PRELUDE_SWAP = """/-- `slice::swap(i, j)` (indices in range: the code pushes an element first) -/
 def listSwap {α : Type} (l : List α) (i j : Nat) : List α :=
   match l[i]?, l[j]? with
@@ -961,6 +1049,7 @@ def main():
     jobs.append(("KKalmanVec.lean", KALMAN_VEC, "/- GENERATED by translator/kernels.py from /repo/src on every run — do not edit. `Vec2DKalmanFilter`: the point filter applied element by element. -/\nnamespace SimVerif.Gen.K\n", "SimVerif.Gen.K"))
     jobs.append(("LEpoch.lean", [c for c in LOGIC if c["group"] == "Epoch"], HEADER_L + PRELUDE_EPOCH, "SimVerif.Gen.L"))
     jobs.append(("LEpochDb.lean", [c for c in LOGIC if c["group"] == "EpochDb"], HEADER_L + PRELUDE_MAP, "SimVerif.Gen.L"))
+    jobs.append(("LTrack.lean", TRACK, HEADER_L + PRELUDE_TRACK, "SimVerif.Gen.L"))
     jobs.append(("LConstr.lean", [c for c in LOGIC if c["group"] == "Constr"], HEADER_L + PRELUDE_DEDUP, "SimVerif.Gen.L"))
     jobs.append(("LBase.lean", [], HEADER_L + PRELUDE_BASE, "SimVerif.Gen.L"))
     jobs.append(("LGallery.lean", [c for c in LOGIC if c["group"] == "Gallery"], "import SimVerif.Gen.LBase\n" + HEADER_L + PRELUDE_SWAP, "SimVerif.Gen.L"))
